@@ -83,12 +83,13 @@ structure Res (Src : Type) where
   world : World Src
   status : Int
   ran : Option Src := none
+  built : Bool := false          -- `go build` ran successfully in this invocation
 
 /-- RunCompiled: start the executable at `exe` -/
 def runCompiled (runBin : Src → Int) (F : Faults) (w : World Src) (exe : Nat) : Res Src :=
   match w.cache exe with
-  | none => ⟨w, 1, none⟩                                  -- "failed to run compiled magefile"
-  | some s => if F.start then ⟨w, 1, none⟩ else ⟨w, osStatus (runBin s), some s⟩
+  | none => { world := w, status := 1 }                  -- "failed to run compiled magefile"
+  | some s => if F.start then { world := w, status := 1 } else { world := w, status := osStatus (runBin s), ran := some s }
 
 /-- what `defer os.RemoveAll(main)` / the explicit removal do -/
 def cleanup (r : Run Src) (w : World Src) : World Src := if r.keep then w else w.setMain r.dir .absent
@@ -122,26 +123,26 @@ theorem built_cache_other (cfg : Cfg) (name : Src → Nat) (r : Run Src) (w : Wo
 /-- generate, compile, run: the part of Invoke after the decision to (re)build -/
 def buildAndRun (cfg : Cfg) (name : Src → Nat) (runBin : Src → Int) (r : Run Src) (F : Faults) (w : World Src) : Res Src :=
   match F.gen with
-  | .create => ⟨deferred cfg r true w, 1, none⟩
-  | .write => ⟨deferred cfg r true (w.setMain r.dir .headless), 1, none⟩
-  | .close => ⟨deferred cfg r true (w.setMain r.dir .full), 1, none⟩
-  | .chtimes => ⟨deferred cfg r true (w.setMain r.dir .full), 1, none⟩
+  | .create => { world := deferred cfg r true w, status := 1 }
+  | .write => { world := deferred cfg r true (w.setMain r.dir .headless), status := 1 }
+  | .close => { world := deferred cfg r true (w.setMain r.dir .full), status := 1 }
+  | .chtimes => { world := deferred cfg r true (w.setMain r.dir .full), status := 1 }
   | .none =>
-    if F.compile then ⟨deferred cfg r false (w.setMain r.dir .full), 1, none⟩
-    else if r.compileOut.isSome then ⟨deferred cfg r false (built cfg name r w), 0, none⟩
+    if F.compile then { world := deferred cfg r false (w.setMain r.dir .full), status := 1 }
+    else if r.compileOut.isSome then { world := deferred cfg r false (built cfg name r w), status := 0, built := true }
     else
       let rc := runCompiled runBin F (built cfg name r w) (exePath name r)
-      ⟨deferred cfg r false rc.world, rc.status, rc.ran⟩
+      { world := deferred cfg r false rc.world, status := rc.status, ran := rc.ran, built := true }
 
 /-- Invoke from the listing of the magefiles on. `name` is ExeName as a function of the sources. -/
 def invoke (cfg : Cfg) (name : Src → Nat) (runBin : Src → Int) (r : Run Src) (F : Faults) (w : World Src) : Res Src :=
   -- Magefiles(): a main file without its constraint line makes go/build fail unless the listing skips it
-  if F.list || (!cfg.listSkipsMain && w.main r.dir == .headless) then ⟨w, 1, none⟩
-  else if F.noFiles then ⟨w, 1, none⟩
-  else if r.compileOut.isNone && F.exeName then ⟨w, 1, none⟩
-  else if !r.hashFast && F.goEnv then ⟨w, 1, none⟩
+  if F.list || (!cfg.listSkipsMain && w.main r.dir == .headless) then { world := w, status := 1 }
+  else if F.noFiles then { world := w, status := 1 }
+  else if r.compileOut.isNone && F.exeName then { world := w, status := 1 }
+  else if !r.hashFast && F.goEnv then { world := w, status := 1 }
   else if !rebuildAlways r && (w.cache (exePath name r)).isSome && !r.force then runCompiled runBin F w (exePath name r)
-  else if F.parse then ⟨w, 1, none⟩
+  else if F.parse then { world := w, status := 1 }
   else buildAndRun cfg name runBin r F w
 
 end MageModel.Invoke
